@@ -7,16 +7,18 @@ import (
 	"github.com/gobuffalo/plush/v5/ast"
 )
 
+// the fields are unexported: a function value is opaque to templates, which
+// must not reach (and change) the parsed program through it
 type userFunction struct {
-	Parameters []*ast.Identifier
-	Block      *ast.BlockStatement
+	parameters []*ast.Identifier
+	block      *ast.BlockStatement
 }
 
 func (f *userFunction) String() string {
 	var out bytes.Buffer
 
 	params := []string{}
-	for _, p := range f.Parameters {
+	for _, p := range f.parameters {
 		params = append(params, p.String())
 	}
 
@@ -24,7 +26,7 @@ func (f *userFunction) String() string {
 	out.WriteString("(")
 	out.WriteString(strings.Join(params, ", "))
 	out.WriteString(") {\n")
-	out.WriteString(f.Block.String())
+	out.WriteString(f.block.String())
 	out.WriteString("\n}")
 
 	return out.String()
